@@ -858,8 +858,12 @@ func (c *compiler) identities() {
 // generator injects that need no compilation to spot (bad range, bad config
 // value).  It is computed from the scenario itself, so it stays right while a
 // failing case is being minimised.
-func MustReport(s *Scenario) []string {
-	out := append([]string(nil), Compile(s).Conflicts...)
+func MustReport(s *Scenario) []string { return MustReportWith(s, false) }
+
+// MustReportWith is MustReport under the ignore-not-supported option (a later
+// deviation of a node that not-supported would have removed then applies).
+func MustReportWith(s *Scenario, ignoreNotSupported bool) []string {
+	out := append([]string(nil), CompileWith(s, ignoreNotSupported).Conflicts...)
 	var doType func(t *Type)
 	doType = func(t *Type) {
 		if t == nil {
